@@ -77,18 +77,22 @@ fn multi_alphabet(l: usize) -> Vec<String> {
     ]
 }
 
+/// spellings of the header name (field names are case-insensitive; HTTP/2-to-1 gateways send lower case)
+pub const NAME_SPELLINGS: &[&str] = &["Range", "range", "RANGE", "rAnGe"];
+
 #[derive(Clone, Debug)]
 pub struct Case {
     pub entry: Entry,
     pub l: usize,
     pub value: String,
+    pub name: String,
 }
 impl Case {
     pub fn to_json(&self) -> Value {
-        json!({"entry": self.entry.name(), "file_length": self.l & !CRLF_FLAG, "crlf_text": self.l & CRLF_FLAG != 0, "range": self.value})
+        json!({"entry": self.entry.name(), "file_length": self.l & !CRLF_FLAG, "crlf_text": self.l & CRLF_FLAG != 0, "range": self.value, "header_name": self.name})
     }
     pub fn from_json(v: &Value) -> Case {
-        Case { entry: Entry::from_name(v["entry"].as_str().unwrap_or("")), l: v["file_length"].as_u64().unwrap_or(0) as usize | if v["crlf_text"].as_bool().unwrap_or(false) { CRLF_FLAG } else { 0 }, value: v["range"].as_str().unwrap_or("").to_string() }
+        Case { entry: Entry::from_name(v["entry"].as_str().unwrap_or("")), l: v["file_length"].as_u64().unwrap_or(0) as usize | if v["crlf_text"].as_bool().unwrap_or(false) { CRLF_FLAG } else { 0 }, value: v["range"].as_str().unwrap_or("").to_string(), name: v["header_name"].as_str().unwrap_or("Range").to_string() }
     }
 }
 
@@ -143,7 +147,13 @@ fn self_consistent(g: &Got, file: &[u8]) -> Option<String> {
 pub fn check(case: &Case) -> (String, bool, Vec<(String, String)>) {
     let file = content(case.l);
     let target = format!("/{}", file_name(case.l));
-    let req = drive::get(&target, &[("Host", "localhost"), ("Range", case.value.as_str())]);
+    check_on(case, &target, &file)
+}
+
+/// the same judgement for any served path whose current content the caller knows
+pub fn check_on(case: &Case, target: &str, file: &[u8]) -> (String, bool, Vec<(String, String)>) {
+    let file = file.to_vec();
+    let req = drive::get(target, &[("Host", "localhost"), (case.name.as_str(), case.value.as_str())]);
     let mut s = MockStream::new(&req);
     let out = drive::run(case.entry, &mut s);
     let mut fails: Vec<(String, String)> = Vec::new();
@@ -188,6 +198,14 @@ pub fn check(case: &Case) -> (String, bool, Vec<(String, String)>) {
                         structure_err = Some(format!("206 without a parsable Content-Range: {:?}", resp.get("Content-Range")));
                     }
                 }
+            }
+        }
+    }
+    // a single-part answer announces exactly the bytes it carries, whatever was asked for
+    if (resp.code == 206 || resp.code == 200) && byteranges::boundary_from_content_type(&ct).is_none() {
+        if let Some(cl) = resp.get("Content-Length") {
+            if cl.trim().parse::<usize>().ok() != Some(resp.body.len()) {
+                fails.push((format!("{}:content-length-differs-from-bytes-sent", pre), format!("Content-Length {} for {} body bytes ({:?} on a {}-byte file)", cl, resp.body.len(), case.value, file.len())));
             }
         }
     }
@@ -329,7 +347,7 @@ pub fn run(ctx: &mut Ctx) {
                 if !ctx.begin(key.as_bytes()) {
                     return;
                 }
-                let case = Case { entry, l, value };
+                let case = Case { entry, l, value, name: "Range".to_string() };
                 let (class, nontrivial, fails) = check(&case);
                 if nontrivial {
                     ctx.nontrivial();
@@ -342,14 +360,185 @@ pub fn run(ctx: &mut Ctx) {
             });
         }
     }
+    // the header name in other letter cases: single ranges over every offset pair, pairs of specs
+    ctx.bound("header_name_spellings", json!(NAME_SPELLINGS));
+    for entry in [Entry::Process, Entry::Legacy] {
+        for l in all_files() {
+            for name in &NAME_SPELLINGS[1..] {
+                for_each_spelled_value(l & !CRLF_FLAG, &mut |value| {
+                    let key = format!("{}\0{}\0{}\0{}", entry.name(), l, value, name);
+                    if !ctx.begin(key.as_bytes()) {
+                        return;
+                    }
+                    let case = Case { entry, l, value, name: name.to_string() };
+                    let (class, _, fails) = check(&case);
+                    ctx.nontrivial();
+                    ctx.outcome(&format!("spelled:{}", class));
+                    for (sig, detail) in fails {
+                        ctx.fail(&sig, || case.to_json(), detail);
+                    }
+                });
+            }
+        }
+    }
+    // the file changes between two requests for the same path (the statement speaks of the
+    // true file size and the bytes at those offsets: of the file as it is when asked)
+    ctx.bound("file_changes_between_requests", json!({"objects": MUT_OBJECTS, "changes": MUT_CHANGES, "ranges": MUT_RANGES}));
+    for entry in [Entry::Process, Entry::Legacy] {
+        for obj in MUT_OBJECTS {
+            for change in MUT_CHANGES {
+                for range in MUT_RANGES {
+                    let m = Mutation { entry, object: obj.to_string(), change: change.to_string(), range: range.to_string() };
+                    let key = format!("mutation\0{}\0{}\0{}\0{}", entry.name(), obj, change, range);
+                    if !ctx.begin(key.as_bytes()) {
+                        continue;
+                    }
+                    ctx.nontrivial();
+                    let (class, fails) = check_mutation(&m);
+                    ctx.outcome(&format!("mutation:{}", class));
+                    for (sig, detail) in fails {
+                        ctx.fail(&sig, || m.to_json(), detail);
+                    }
+                }
+            }
+        }
+    }
     std::env::set_current_dir("/").unwrap();
     let _ = std::fs::remove_dir_all(&root);
+}
+
+pub fn for_each_spelled_value(l: usize, f: &mut dyn FnMut(String)) {
+    let offs = offsets(l);
+    for a in &offs {
+        f(format!("bytes={}-", a));
+        f(format!("bytes=-{}", a));
+        for b in &offs {
+            f(format!("bytes={}-{}", a, b));
+        }
+    }
+    let alpha = multi_alphabet(l.max(5));
+    enumerate::sequences_exact(alpha.len(), 2, &mut |idx| {
+        f(format!("bytes={},{}", alpha[idx[0]], alpha[idx[1]]));
+    });
+}
+
+pub const MUT_OBJECTS: &[&str] = &["regular-file", "link-to-file", "link-in-subdirectory"];
+pub const MUT_CHANGES: &[&str] = &["rewritten-same-size", "grown", "shrunk", "emptied", "replaced-by-rename", "link-repointed-to-longer", "link-repointed-to-shorter"];
+pub const MUT_RANGES: &[&str] = &["bytes=0-", "bytes=2-5", "bytes=-3", "bytes=0-0,-1", "bytes=3-"];
+
+#[derive(Clone, Debug)]
+pub struct Mutation {
+    pub entry: Entry,
+    pub object: String,
+    pub change: String,
+    pub range: String,
+}
+impl Mutation {
+    pub fn to_json(&self) -> Value {
+        json!({"kind": "mutation", "entry": self.entry.name(), "object": self.object, "change": self.change, "range": self.range})
+    }
+    pub fn from_json(v: &Value) -> Mutation {
+        Mutation { entry: Entry::from_name(v["entry"].as_str().unwrap_or("")), object: v["object"].as_str().unwrap_or("").to_string(), change: v["change"].as_str().unwrap_or("").to_string(), range: v["range"].as_str().unwrap_or("").to_string() }
+    }
+}
+
+/// request, change the file, request again; both answers judged against the content at that time.
+/// Runs in the current directory (the served root) under mut/<unique>/.
+pub fn check_mutation(m: &Mutation) -> (String, Vec<(String, String)>) {
+    static N: std::sync::atomic::AtomicUsize = std::sync::atomic::AtomicUsize::new(0);
+    let n = N.fetch_add(1, std::sync::atomic::Ordering::SeqCst);
+    let dir = format!("mut/{}-{}", std::process::id(), n);
+    let _ = std::fs::create_dir_all(format!("{}/sub", dir));
+    let first = crate::tree::coded_text(23, 11);
+    let longer = crate::tree::coded_text(40, 12);
+    let shorter = crate::tree::coded_text(9, 13);
+    let same = crate::tree::coded_text(23, 14);
+    let w = |p: &str, c: &[u8]| std::fs::write(p, c).unwrap();
+    let real = format!("{}/real.txt", dir);
+    w(&real, &first);
+    w(&format!("{}/longer.txt", dir), &longer);
+    w(&format!("{}/shorter.txt", dir), &shorter);
+    let (served, link): (String, Option<String>) = match m.object.as_str() {
+        "link-to-file" => {
+            let l = format!("{}/current.txt", dir);
+            std::os::unix::fs::symlink("real.txt", &l).unwrap();
+            (l.clone(), Some(l))
+        }
+        "link-in-subdirectory" => {
+            let l = format!("{}/sub/current.txt", dir);
+            std::os::unix::fs::symlink("../real.txt", &l).unwrap();
+            (l.clone(), Some(l))
+        }
+        _ => (real.clone(), None),
+    };
+    let target = format!("/{}", served);
+    let case = Case { entry: m.entry, l: 0, value: m.range.clone(), name: "Range".to_string() };
+    let mut fails = Vec::new();
+    let (c1, _, f1) = check_on(&case, &target, &first);
+    for (sig, d) in f1 {
+        fails.push((sig, format!("before the change: {}", d)));
+    }
+    let up = if m.object == "link-in-subdirectory" { "../" } else { "" };
+    let second: Vec<u8> = match m.change.as_str() {
+        "rewritten-same-size" => {
+            w(&real, &same);
+            same.clone()
+        }
+        "grown" => {
+            w(&real, &longer);
+            longer.clone()
+        }
+        "shrunk" => {
+            w(&real, &shorter);
+            shorter.clone()
+        }
+        "emptied" => {
+            w(&real, b"");
+            Vec::new()
+        }
+        "replaced-by-rename" => {
+            let tmp = format!("{}/real.txt.new", dir);
+            w(&tmp, &longer);
+            std::fs::rename(&tmp, &real).unwrap();
+            longer.clone()
+        }
+        "link-repointed-to-longer" | "link-repointed-to-shorter" => {
+            let (name, c) = if m.change.ends_with("longer") { ("longer.txt", longer.clone()) } else { ("shorter.txt", shorter.clone()) };
+            match &link {
+                Some(l) => {
+                    // the usual deploy step: ln -s new tmp && mv tmp link
+                    let tmp = format!("{}.tmp", l);
+                    std::os::unix::fs::symlink(format!("{}{}", up, name), &tmp).unwrap();
+                    std::fs::rename(&tmp, l).unwrap();
+                    c
+                }
+                None => {
+                    // a regular file has no link to re-point: the other file is moved over it
+                    std::fs::copy(format!("{}/{}", dir, name), &real).unwrap();
+                    c
+                }
+            }
+        }
+        _ => first.clone(),
+    };
+    let (c2, _, f2) = check_on(&case, &target, &second);
+    for (sig, d) in f2 {
+        fails.push((sig, format!("after the change ({} {}): {}", m.object, m.change, d)));
+    }
+    let _ = std::fs::remove_dir_all(&dir);
+    (format!("{}>{}", c1, c2), fails)
 }
 
 pub fn replay(v: &Value) -> Vec<Failure> {
     drive::default_config();
     let root = build_tree();
     std::env::set_current_dir(&root).unwrap();
+    if v["kind"].as_str() == Some("mutation") {
+        let (_, fails) = check_mutation(&Mutation::from_json(v));
+        std::env::set_current_dir("/").unwrap();
+        let _ = std::fs::remove_dir_all(&root);
+        return fails.into_iter().map(|(signature, detail)| Failure { signature, case: v.clone(), detail, hash: 0 }).collect();
+    }
     let case = Case::from_json(v);
     let (_, _, fails) = check(&case);
     std::env::set_current_dir("/").unwrap();
